@@ -10,6 +10,7 @@ EXPLANATION = ('Every lookup and every planned write searches the current index 
                'old index files are unlinked only by an enacted DropTable record, which is logged only when the batch walk reached the end of the source; '
                'the index swap on growth happens under both the tables and the reindex write locks; reindex batches wait for the triggering record to be '
                'enacted; reindexing skips entries already present; candidates are confirmed against the stored key tail and the page scan continues after a miss.')
+EXPLANATION += ' Added: a fresh index insert is retried after growth; a moved value leaves no entry in an older index and its copies are purged from all generations; the lookup holds the reindex guard from its first search; the writer search verifies the stored key; dropping a never-created table file is not an error; progress is reset when the queue front changes.'
 ASSUMPTIONS = ['batch migration correctness over interleavings is not decided', 'unwind edges ignored']
 TRUSTED = ['rustc MIR construction (nightly)', 'pdb-facts driver', 'rule engine /verif/rules', 'anchor tables in props/C09.py']
 
